@@ -3,7 +3,7 @@
   JVal on the wire:  null | true/false | "s" | {"i": n} | {"f": "<repr>"} | [..] | {"o": [[key, v], ..]}
   PVal on the wire:  null | true/false | "s" | {"i": n} | {"f": tok} | {"list": [..]} | {"dict": [[k, v], ..]}
                      | {"f64": [tok..]} | {"nd": [..]} | {"dt": tok} | {"k": "na" | "npscalar" | "other"}
-  Val on the wire:   {"t": s} | true/false | {"f": tok} | {"i": n} | {"d": tok}
+  Val on the wire:   "s" | true/false | {"f": tok} | {"i": n} | {"d": tok}
 -/
 import Drv.Base
 import Drv.Reader
@@ -85,11 +85,9 @@ partial def pvalOfJson (j : Json) : Except String Pdt.Json.PVal :=
 
 def jsValOfJson (j : Json) : Except String Val :=
   match j with
+  | .str s => pure (.text s.toList)
   | .bool b => pure (.bool b)
   | .obj _ =>
-    match j.getObjVal? "t" with
-    | .ok v => do pure (.text (← v.getStr?).toList)
-    | .error _ =>
     match j.getObjVal? "f" with
     | .ok v => do pure (.num (← v.getStr?).toList)
     | .error _ =>
